@@ -744,10 +744,16 @@ class Representation:
                     "computing differential of '{}' with respect to {}".format(
                         word, generator)
                 )
-            word_diff = utils.words.fox_word_derivative(generator, word)
+            gen_list = self.parse_word(word)
+            if not isinstance(gen_list, str):
+                gen_list = tuple(gen_list)
+
+            word_diff = utils.words.fox_word_derivative(generator, gen_list)
             matrix_diff = [
-                coeff * self._word_value(word)
-                for word, coeff in word_diff.items()
+                coeff * self._word_value(
+                    key if isinstance(key, str) else "*".join(key)
+                )
+                for key, coeff in word_diff.items()
             ]
             if len(matrix_diff) == 0:
                 return utils.zeros((self.dim, self.dim), base_ring=self.base_ring)
